@@ -818,6 +818,8 @@ def stage(ck, outs, prefix="inplace_", stub=True, compiled=True):
         for (line, real, producer), ans in zip(mrecs, ck.model([m[0] for m in mrecs], parallel=False)):
             ck.count(prefix + "memonly_" + real + "_" + producer)
             if ans != real:
+                ck.count(prefix + "memonly_disagreements")
+            if ans != real and ck.counters[prefix + "memonly_disagreements"] <= 3:
                 ck.violation(f"bypass_memory_only_ops and Model/InPlace.memOnlyFate disagree: `{line}` ({producer}) model {ans} "
                              f"real {real}", {"request": line, "producer": producer, "real": real, "model": ans,
                                               "correspondence": "memOnlyFate = graph_optimiser_util.bypass_memory_only_ops"},
